@@ -558,7 +558,7 @@ def source_budget(ctx, o):
     for attr, owners in (('_max_produced_parts', {'__init__', 'adjust_part_count'}), ('_produced_parts', {'__init__', '_pass_part_downstream'})):
         for s in inv.attr_stores(P, attr):
             o.count()
-            if s.cls is not c or s.func.name not in owners:
+            if s.cls is not c or s.func.name not in inv.covered(P, owners):
                 o.fail(P, s.ctx, s.stmt, f'Source.{attr} is written outside {sorted(owners)}', file=s.mod.path, line=s.line)
     # produced_parts / remaining_parts report the counters
     o.count()
